@@ -297,6 +297,10 @@ func SameBlockScenarios(g *Gen, b *Builder) {
 		}
 		return
 	}
+	if !g.W.NoBig && b.v1Allowed() && rapid.IntRange(0, 49).Draw(g.T, "v1Batch") == 0 {
+		b.Fanout(true)
+		return
+	}
 	switch rapid.IntRange(0, 14).Draw(g.T, "scenario") {
 	case 0: // revise then prove a v1 contract inside one block (possible when the window opens at this height)
 		b.V1ReviseThenProve()
